@@ -20,6 +20,7 @@ whole of `run_located` rests — only mentions instructions, jump entries and co
 -/
 import Garnish.Lemmas.CompileShared
 import Garnish.Lemmas.CompileRange
+import Garnish.Lemmas.CompileShift2
 import Garnish.Props.C01Compile
 namespace Garnish.Props.C20
 open Garnish Gen Garnish.Abs Garnish.Spec
@@ -105,7 +106,7 @@ theorem compile_env_at (P0 : Prog F) (p : Program F) (hwf : WFProgramAt P0 p) : 
     obtain ⟨tb, hj, hl, hi⟩ := hloc b hrb
     rw [hcont, hpid] at hl
     rw [hpid] at hj
-    have hwb := hwf.wf id b hb
+    have hwb := wfE_wfC b (hwf.wf id b hb)
     rw [hterm, termsAfter_end hl hwb] at hi
     exact ⟨tb, hj, hl, hwb, hi.1⟩
 
@@ -140,19 +141,25 @@ theorem C20_own_pieces (P0 : Prog F) (p : Program F) (hwf : ∀ id b, lookupBody
     (by simp [startState]) hwf
   exact ⟨h.ops, h.exprs, h.cidx⟩
 
-/-- the whole-program run theorem for a body named `e`: relative to `Env`, for any program text `P` -/
+/-- the whole-program run theorem for a body named `e`: relative to `Env`, for any program text `P` (stated for the
+strict evaluator, on which the simulation is proved; `evalBodyS = evalBody` on programs whose else-chains have their final
+arms, `strict_eq`) -/
 theorem run_body {P : Prog F} {bodies : List (Nat × Expr F)} (env : Env P bodies) {e : Nat} {main : Expr F}
     (hmain : lookupBody bodies e = some main) (htail : tailR main = true)
     {fuel : Nat} {input v : Val F} {st : St F}
-    (h : evalBody fo host bodies e fuel main ⟨input, []⟩ = .ok (v, st)) :
+    (h : evalBodyS fo host bodies e fuel main ⟨input, []⟩ = .ok (v, st)) :
     ∃ n s, run fo host P n { pc := P.jumps[e]?.getD 0, regs := [], vals := [input], frames := [], trace := [] } = (.halted s, n) ∧
       s.vals = [v] ∧ s.regs = [] ∧ s.frames = [] ∧ s.trace = st.trace := by
   obtain ⟨t, hjt, hloc, hwf, hend⟩ := env.body e main hmain
   have hsz := lt_size_of_get hend
-  obtain ⟨rs', hr, he⟩ := (sim_all fo host env fuel).2.2.2.2 e main ⟨input, []⟩ v st h t [] [] [] hloc hwf hjt hsz
+  obtain ⟨rs', hr, he⟩ := (sim_all fo host env fuel).2.2.2.2.1 e main ⟨input, []⟩ v st h t [] [] [] hloc hwf hjt hsz
   rw [he htail] at hr
   obtain ⟨n, hn⟩ := hr.run_halts (step_endExpression_halt hend)
   exact ⟨n, _, by rw [hjt]; exact hn, rfl, rfl, rfl, rfl⟩
+
+theorem evalBody_toS {P0 : Prog F} {p : Program F} (hwf : WFProgramAt P0 p) {e fuel : Nat} {st0 : St F} {r : Val F × St F}
+    (h : evalBody fo host p.bodies e fuel p.main st0 = .ok r) : evalBodyS fo host p.bodies e fuel p.main st0 = .ok r := by
+  rw [strict_eq hwf.wf e fuel p.main st0 (hwf.wf _ _ hwf.main0)]; exact h
 
 /-- **C20 / C01 in a shared object**: a well-formed program built into an object that already holds anything computes,
 started from ITS entry, the value and the host-call trace that its source means — exactly the conclusion of
@@ -164,14 +171,14 @@ theorem C20_compile_correct_shared (P0 : Prog F) (p : Program F) (input : Val F)
         { pc := (compileInto P0 p).1.jumps[(compileInto P0 p).2]?.getD 0, regs := [], vals := [input], frames := [],
           trace := [] } = (.halted s, n) ∧
       s.vals = [v] ∧ s.regs = [] ∧ s.frames = [] ∧ s.trace = st.trace :=
-  run_body fo host (compile_env_at P0 p hwf) hwf.main0 hwf.tail h
+  run_body fo host (compile_env_at P0 p hwf) hwf.main0 hwf.tail (evalBody_toS fo host hwf h)
 
 /-- whatever is built into the object afterwards, a program that was correct in it stays correct: it is started from
 the same entry and computes the same value and trace -/
 theorem C20_correct_of_extends {P P' : Prog F} (hext : Extends P P') {bodies : List (Nat × Expr F)} (env : Env P bodies)
     {e : Nat} {main : Expr F} (hmain : lookupBody bodies e = some main) (htail : tailR main = true)
     {fuel : Nat} {input v : Val F} {st : St F}
-    (h : evalBody fo host bodies e fuel main ⟨input, []⟩ = .ok (v, st)) :
+    (h : evalBodyS fo host bodies e fuel main ⟨input, []⟩ = .ok (v, st)) :
     ∃ n s, run fo host P' n { pc := P'.jumps[e]?.getD 0, regs := [], vals := [input], frames := [], trace := [] } = (.halted s, n) ∧
       s.vals = [v] ∧ s.regs = [] ∧ s.frames = [] ∧ s.trace = st.trace :=
   run_body fo host (Env_extends hext env) hmain htail h
@@ -185,7 +192,8 @@ theorem C20_earlier_program_undisturbed (P0 : Prog F) (q p : Program F) (input :
         { pc := (compileInto (compileInto P0 q).1 p).1.jumps[(compileInto P0 q).2]?.getD 0, regs := [], vals := [input],
           frames := [], trace := [] } = (.halted s, n) ∧
       s.vals = [v] ∧ s.regs = [] ∧ s.frames = [] ∧ s.trace = st.trace :=
-  C20_correct_of_extends fo host (C20_compileInto_extends _ p) (compile_env_at P0 q hwf) hwf.main0 hwf.tail h
+  C20_correct_of_extends fo host (C20_compileInto_extends _ p) (compile_env_at P0 q hwf) hwf.main0 hwf.tail
+    (evalBody_toS fo host hwf h)
 
 /-! ### any finite sequence of programs -/
 
@@ -222,12 +230,81 @@ theorem C20_compileAll_correct : ∀ (ps : List (Program F)) (P0 : Prog F), WFAl
     simp only [compileAll, List.zip_cons_cons, List.mem_cons] at hpe
     rcases hpe with rfl | hpe
     · intro input fuel v st h
-      exact C20_correct_of_extends fo host (compileAll_extends ps _) (compile_env_at P0 p hwf.1) hwf.1.main0 hwf.1.tail h
+      exact C20_correct_of_extends fo host (compileAll_extends ps _) (compile_env_at P0 p hwf.1) hwf.1.main0 hwf.1.tail
+        (evalBody_toS fo host hwf.1 h)
     · exact C20_compileAll_correct ps _ hwf.2 pe hpe
 
 /-- … and nothing that was in the object before is changed by the whole sequence -/
 theorem C20_compileAll_extends (ps : List (Program F)) (P0 : Prog F) : Extends P0 (compileAll P0 ps).1 :=
   compileAll_extends ps P0
+
+/-! ### "the same as when compiled alone" as a theorem
+
+A program compiled alone has its bodies named `0, 1, 2, …` (its jump entries); built into an object that holds `P0` the
+same source has them named `P0.jumps.size + 0, + 1, …`: it is the renamed program `rlProgram (shJ P0) p`.
+`evalF_relabel` (Lemmas/CompileRelabel4.lean) says what renaming does to the meaning: nothing but renaming the
+expression values in the result and in the trace. -/
+
+/-- **position independence of well-formedness**: a program that is well formed alone is well formed, renamed, at
+every position. (Proof: the shared build goes through the shifted states of the build alone, `layoutRoots_sh`.) -/
+theorem WFProgramAt_shift (P0 : Prog F) (p : Program F) (hwf : C01.WFProgram p) :
+    WFProgramAt P0 (rlProgram (shJ P0) p) := by
+  have h0 : Sh P0 (startState (F := F) Prog.empty) (startState P0) :=
+    ⟨by simp [startState, Prog.empty], by simp [startState, Prog.empty, shJ], by simp [startState, Prog.empty],
+     by simp [startState, Prog.empty, shRoot, shKind, shJ, shI], by simp [startState]⟩
+  have hsh : Sh P0 (compileState Prog.empty p) (compileState P0 (rlProgram (shJ P0) p)) := by
+    simp only [compileState, rlProgram, bodiesSize_rl]
+    exact layoutRoots_sh p.bodies _ _ _ h0 C01.startState_inv
+  have hz : shJ P0 0 = P0.jumps.size := by simp [shJ]
+  refine ⟨?_, ?_, ?_, ?_, ?_⟩
+  · have := lookupBody_rl (shJ_inj P0) p.bodies 0
+    rw [hz, hwf.main0] at this
+    simpa [rlProgram] using this
+  · intro id' b' h
+    obtain ⟨id, b, _, rfl, hb⟩ := lookupBody_rl_inv (shJ P0) p.bodies id' b' h
+    rw [wfE_rl]; exact hwf.wf id b hb
+  · simp only [rlProgram, tailR_rl]; exact hwf.tail
+  · intro r' hr' id' hk
+    rw [hsh.done, List.mem_map] at hr'
+    obtain ⟨r, hr, rfl⟩ := hr'
+    simp only [shRoot, shKind] at hk ⊢
+    cases hkr : r.kind with
+    | code e => rw [hkr] at hk; cases hk
+    | ref id =>
+      rw [hkr] at hk
+      simp only [RootKind.ref.injEq] at hk
+      rw [← hk, hwf.labels r hr id hkr]
+  · intro id' b' h
+    obtain ⟨id, b, rfl, rfl, hb⟩ := lookupBody_rl_inv (shJ P0) p.bodies id' b' h
+    obtain ⟨r, hr, hk⟩ := hwf.covered id b hb
+    refine ⟨shRoot P0 r, by rw [hsh.done]; exact List.mem_map_of_mem hr, ?_⟩
+    simp only [shRoot, shKind, hk]
+
+/-- **C20: a program computes in a shared object the same as when compiled alone** — up to the names of the bodies.
+For a well-formed `p` that means `(v, trace)` on `input`: compiled alone it halts with `v` and `trace` (this is
+`C01_compile_correct`); built into an object that holds ANY `P0` — where the same source is `rlProgram ρ p`,
+`ρ = shJ P0` = "shift the jump entries by `P0.jumps.size`" — it halts, started from its entry on the renamed input,
+with `ρ v` and `ρ trace`: the expression values inside the result and inside the recorded host calls are shifted, nothing
+else differs. `host'` answers the renamed questions with the renamed answers (`HostRel`); for a host that does not
+look inside expression values `host' = host`. -/
+theorem C20_same_as_alone (host' : Host F) (P0 : Prog F) (p : Program F) (input : Val F) (fuel : Nat) (v : Val F) (st : St F)
+    (hwf : C01.WFProgram p) (hh : HostRel (shJ P0) host host')
+    (h : evalProgram fo host fuel p input = .ok (v, st)) :
+    (∃ n s, run fo host (compile p) n
+        { pc := (compile p).jumps[0]?.getD 0, regs := [], vals := [input], frames := [], trace := [] } = (.halted s, n) ∧
+      s.vals = [v] ∧ s.regs = [] ∧ s.frames = [] ∧ s.trace = st.trace) ∧
+    (∃ n s, run fo host' (compileInto P0 (rlProgram (shJ P0) p)).1 n
+        { pc := (compileInto P0 (rlProgram (shJ P0) p)).1.jumps[(compileInto P0 (rlProgram (shJ P0) p)).2]?.getD 0,
+          regs := [], vals := [Val.rl (shJ P0) input], frames := [], trace := [] } = (.halted s, n) ∧
+      s.vals = [Val.rl (shJ P0) v] ∧ s.regs = [] ∧ s.frames = [] ∧ s.trace = st.trace.map (HostCall.rl (shJ P0))) := by
+  refine ⟨C01.C01_compile_correct fo host p input fuel v st hwf h, ?_⟩
+  have hr := evalBody_relabel fo (shJ_inj P0) hh p.bodies 0 fuel p.main ⟨input, []⟩
+  simp only [evalProgram] at h
+  rw [h] at hr
+  have hz : shJ P0 0 = (compileInto P0 (rlProgram (shJ P0) p)).2 := by simp [shJ, compileInto]
+  rw [hz] at hr
+  exact C20_compile_correct_shared fo host' P0 (rlProgram (shJ P0) p) (Val.rl (shJ P0) input) fuel _ _
+    (WFProgramAt_shift P0 p hwf) hr
 
 /-! ### non-vacuity: two programs in one object, the second with a top-level `^~` and a nested body -/
 
@@ -309,6 +386,16 @@ example : ∀ i x j, ex1.instrs.size ≤ i → (compileInto ex1 ex2).1.instrs[i]
     · split at h
       · cases h; rfl
       · cases h)).1
+
+/-- the second program as it is when compiled alone (entry 0, nested body 3) … -/
+def ex2alone : Program Float :=
+  { main := .chain [(true, .input, .nested 3)] (some (.reapply (.lit (.num (.int 1))))),
+    bodies := [(0, .chain [(true, .input, .nested 3)] (some (.reapply (.lit (.num (.int 1)))))), (3, .lit (.num (.int 7)))] }
+
+/-- … renamed to its position after the first program is `ex2` -/
+example : rlProgram (shJ ex1) ex2alone = ex2 := by
+  have : ex1.jumps.size = 3 := by decide
+  simp [rlProgram, ex2alone, ex2, ex2main, rlE, rlArms, rlBodies, shJ, this, Val.rl]
 
 end Garnish.Props.C20
 
